@@ -48,24 +48,25 @@ type fault struct {
 
 // buildEnv carries the scripted world and records everything the builder asks for.
 type buildEnv struct {
-	w          *gen.World
-	pkgs       []sourceaddrs.RemotePackage
-	regs       []regaddr.ModulePackage
-	finders    []*hFinder
-	mu         sync.Mutex
-	log        []evt
-	calls      int // callback ordinal
-	limit      int // abort when exceeded (logical non-termination bound)
-	aborted    bool
-	faults     []fault
-	faulted    []int    // ordinals actually faulted
-	faultedAdd []int    // index (in call order) of the Add call that was running when each fault fired
-	kinds      []string // kind of callback per ordinal (index ordinal-1)
-	currentAdd int
-	yield      func()
-	onCall     func(ordinal int, phase string) // crash-point hook: "enter" / "exit"
-	problems   []string                        // harness-side observations (finder saw wrong content, ...)
-	diagSeen   []sourcebundle.Diagnostics      // what the tracer's Diagnostics callback received
+	w             *gen.World
+	pkgs          []sourceaddrs.RemotePackage
+	regs          []regaddr.ModulePackage
+	finders       []*hFinder
+	mu            sync.Mutex
+	log           []evt
+	calls         int // callback ordinal
+	limit         int // abort when exceeded (logical non-termination bound)
+	aborted       bool
+	faults        []fault
+	faulted       []int    // ordinals actually faulted
+	faultedAdd    []int    // index (in call order) of the Add call that was running when each fault fired
+	kinds         []string // kind of callback per ordinal (index ordinal-1)
+	currentAdd    int
+	yield         func()
+	warnEveryFind bool
+	onCall        func(ordinal int, phase string) // crash-point hook: "enter" / "exit"
+	problems      []string                        // harness-side observations (finder saw wrong content, ...)
+	diagSeen      []sourcebundle.Diagnostics      // what the tracer's Diagnostics callback received
 }
 
 func newBuildEnv(w *gen.World) (*buildEnv, error) {
@@ -368,6 +369,9 @@ func (f *hFinder) FindDependencies(fsys fs.FS, subPath string, deps *sourcebundl
 	be.record(nil, "find", content+"|"+subPath+"|"+strconv.Itoa(f.idx))
 	n, mode := be.enter("find")
 	defer be.exit(n)
+	if mode == "" && be.warnEveryFind {
+		mode = "warning-if-finder"
+	}
 	if mode == "abort" {
 		return sourcebundle.Diagnostics{hDiag{sev: sourcebundle.DiagError, summary: "harness: callback budget exceeded"}}
 	}
@@ -591,15 +595,16 @@ func doAdd(ctx context.Context, b *sourcebundle.Builder, be *buildEnv, a gen.Add
 }
 
 type buildOpts struct {
-	Order      []int // permutation of the Add calls (nil = as given)
-	Concurrent bool  // one goroutine per Add call, released by a barrier
-	NoTracer   bool
-	Faults     []fault
-	Limit      int
-	Yield      func()
-	OnCall     func(be *buildEnv, b *sourcebundle.Builder, ordinal int, phase string)
-	KeepOpen   bool // do not call Close
-	KeepDir    bool // the target directory exists already (empty); do not recreate it
+	Order         []int // permutation of the Add calls (nil = as given)
+	Concurrent    bool  // one goroutine per Add call, released by a barrier
+	NoTracer      bool
+	Faults        []fault
+	Limit         int
+	Yield         func()
+	WarnEveryFind bool // every finder run also raises a warning (not a fault)
+	OnCall        func(be *buildEnv, b *sourcebundle.Builder, ordinal int, phase string)
+	KeepOpen      bool // do not call Close
+	KeepDir       bool // the target directory exists already (empty); do not recreate it
 }
 
 // runBuild builds the world into dir (created fresh).
@@ -614,6 +619,7 @@ func runBuild(w *gen.World, dir string, o buildOpts) *buildResult {
 	be.faults = o.Faults
 	be.limit = o.Limit
 	be.yield = o.Yield
+	be.warnEveryFind = o.WarnEveryFind
 	if !o.KeepDir {
 		if err := freshDir(dir); err != nil {
 			res.NewErr = err
